@@ -47,6 +47,9 @@ def chain_desc(kind, dims, diss):
     kind0 = kind
     if hom:
         kind = "zz"
+    cplx = kind == "generic-c"      # 'generic' with complex, non-normal Lindblad operators, built through every add_* method
+    if cplx:
+        kind = "generic"
     desc = {"dims": list(dims), "site_h": [], "site_l": [], "nn_h": [], "nn_l": []}
     for s, d in enumerate(dims):
         if kind == "zz":
@@ -74,10 +77,56 @@ def chain_desc(kind, dims, diss):
             if diss:
                 desc["nn_l"].append((b, np.diag(np.ones(dl - 1), 1).astype(complex),
                                      np.diag(np.ones(dr - 1), -1).astype(complex), 0.2))
+    if cplx:
+        desc["site_l"] = [(q, a + 0.3j * np.diag(np.linspace(1, -1, a.shape[0])), g) for (q, a, g) in desc["site_l"]]
+        desc["nn_l"] = [(b, al * (0.8 + 0.5j) + 0.2j * np.diag(np.linspace(1, -1, al.shape[0])),
+                         ar + 0.4j * np.diag(np.linspace(-1, 1, ar.shape[0])), g) for (b, al, ar, g) in desc["nn_l"]]
+        desc["build"] = "liouvillians"
     return desc
 
 
+def _two_site_super(al, bl, ar, br):
+    """rho -> (al x ar) rho (bl x br) on vec(rho_l) x vec(rho_r), row-major vectorisation"""
+    return np.kron(np.kron(al, bl.T), np.kron(ar, br.T))
+
+
+def oq_chain_liouvillians(desc):
+    """The same chain assembled through all five add_* methods of SystemChain, the ready-made Liouvillians being added
+    *between* the other terms of the same site / bond (terms given as Liouvillians are built here, not by oqupy)."""
+    dims = desc["dims"]
+    ch = oq.SystemChain(hilbert_space_dimensions=dims)
+    for s, h in desc["site_h"]:
+        ch.add_site_hamiltonian(site=s, hamiltonian=h)
+    for i, (s, a, g) in enumerate(desc["site_l"]):
+        if i % 2 == 0:
+            ch.add_site_dissipation(site=s, lindblad_operator=a, gamma=g)
+        else:
+            ch.add_site_liouvillian(site=s, liouvillian=R.lindbladian(np.zeros_like(a), [g], [a]))
+    first = set()
+    for b, hl, hr in desc["nn_h"]:
+        if b not in first:
+            first.add(b)
+            ch.add_nn_hamiltonian(site=b, hamiltonian_l=hl, hamiltonian_r=hr)
+    for b, al, ar, g in desc["nn_l"]:
+        one_l, one_r = np.eye(dims[b]), np.eye(dims[b + 1])
+        nl, nr = al.conj().T @ al, ar.conj().T @ ar
+        ch.add_nn_liouvillian(site=b, liouvillian_l_r=g * (
+            _two_site_super(al, al.conj().T, ar, ar.conj().T) - 0.5 * _two_site_super(nl, one_l, nr, one_r)
+            - 0.5 * _two_site_super(one_l, nl, one_r, nr)))
+    seen = set()
+    for b, hl, hr in desc["nn_h"]:
+        if b not in seen:       # the first Hamiltonian term of each bond was added above
+            seen.add(b)
+            continue
+        one_l, one_r = np.eye(dims[b]), np.eye(dims[b + 1])
+        ch.add_nn_liouvillian(site=b, liouvillian_l_r=-1j * (_two_site_super(hl, one_l, hr, one_r)
+                                                             - _two_site_super(one_l, hl, one_r, hr)))
+    return ch
+
+
 def oq_chain(desc):
+    if desc.get("build") == "liouvillians":
+        return oq_chain_liouvillians(desc)
     ch = oq.SystemChain(hilbert_space_dimensions=desc["dims"])
     for s, h in desc["site_h"]:
         ch.add_site_hamiltonian(site=s, hamiltonian=h)
@@ -281,6 +330,9 @@ def exact_cases(tier):
     for dims, diss, order in itertools.product([(2, 2), (2, 3), (3, 2)], [False, True], [1, 2]):
         for ptk in (("none", "none"), ("ancilla", "none"), ("none", "ancilla3"), ("ancilla", "ancilla")):
             out.append(("generic", dims, diss, ptk, order, 3))
+    for dims, order in itertools.product([(2, 2), (2, 3), (3, 2)], [1, 2]):
+        for ptk in (("none", "none"), ("ancilla", "none"), ("none", "ancilla3")):
+            out.append(("generic-c", dims, True, ptk, order, 3))
     for dims, diss, order in itertools.product([(2, 2, 2), (2, 3, 2), (2, 2, 2, 2)], [False, True], [1, 2]):
         L = len(dims)
         for ptk in (["none"] * L, ["none", "ancilla"] + ["none"] * (L - 2)):
